@@ -527,6 +527,17 @@ Definition geom_lhs (s : string) : bool :=
 (* the part of a generated production table the model has to account for *)
 Definition geom_table (G : list gprod) : list gprod := filter (fun p => geom_lhs (fst p)) G.
 
+(* the same productions, in any order (the order of SLY's table follows the order of the methods in the source) *)
+Definition gprod_mem (p : gprod) (l : list gprod) : bool := existsb (gprod_eqb p) l.
+Definition same_prods (a b : list gprod) : bool :=
+  andb (forallb (fun p => gprod_mem p b) a) (forallb (fun p => gprod_mem p a) b).
+
+Definition padding_prods : list gprod := [
+  ("padding", ["padding"; "&"]); ("padding", ["padding"; "COMMENT"]); ("padding", ["padding"; "DOLLAR_COMMENT"]);
+  ("padding", ["padding"; "SPACE"]); ("padding", ["COMMENT"]); ("padding", ["DOLLAR_COMMENT"]); ("padding", ["SPACE"])
+]%string.
+Definition padding_table (G : list gprod) : list gprod := filter (fun p => String.eqb (fst p) "padding") G.
+
 Fixpoint rule_lookup (p : gprod) (tbl : list (gprod * grule)) : option grule :=
   match tbl with
   | [] => None
